@@ -25,5 +25,6 @@ pub mod ax {
 }
 broadcast use {ax::axiom_strslice_ext, axr::axiom_char_pattern, vstd::std_specs::hash::group_hash_axioms, vstd::string::group_string_axioms};
 //@verify references._references
+//@extras
 } // verus!
 fn main() {}
